@@ -251,4 +251,109 @@ theorem bifAmplLocal_refines (angle : List K → List K → Option K) (degrees :
   simp only [lm_bif_ampl_local, lm_bif_ampl_local.body, Py.seq, Py.bind, bifVectorLocal_refines pids hc k hk a b hkids]
   cases h : angle (bifVectorsLocal xs ys zs (k : Int) a b).1 (bifVectorsLocal xs ys zs (k : Int) a b).2 <;> simp [h, Py.finish]
 
+/-! ## branch level: `Path.length`, `branch_pathlength`, `contraction`, `taper_1`, `taper_2` -/
+
+/-- a branch (list of node indices) of a tree with `n` nodes -/
+def ValidBranch (n : Nat) (br : List Int) : Prop := ∀ i ∈ br, 0 ≤ i ∧ i < (n : Int)
+
+theorem idx_head (l : List Int) : Py.idx l (0 : Int) = l.head? := by
+  cases l <;> simp [Py.idx, Py.normIdx]
+
+theorem idx_last (l : List Int) : Py.idx l (-1 : Int) = l.getLast? := by
+  cases l with
+  | nil => simp [Py.idx, Py.normIdx]
+  | cons a t => simp [Py.idx, Py.normIdx, List.getLast?_eq_getElem?]
+
+theorem row_eq {n : Nat} {xs ys zs : List K} (hc : Cols n xs ys zs) (j : Nat) (hj : j < n) :
+    List.mapM (fun c => Py.idx c (j : Int)) [xs, ys, zs] = some (pos xs ys zs (j : Int)) := by
+  simp [List.mapM_cons, idx_col xs j (by rw [hc.hx]; omega), idx_col ys j (by rw [hc.hy]; omega),
+      idx_col zs j (by rw [hc.hz]; omega), pos]
+
+theorem gatherRows_eq {n : Nat} {xs ys zs : List K} (hc : Cols n xs ys zs) : ∀ (br : List Int), ValidBranch n br →
+    Py.LG.gatherRows [xs, ys, zs] br = some (br.map (pos xs ys zs))
+  | [], _ => by simp [Py.LG.gatherRows]
+  | i :: t, h => by
+    have hi := h i (by simp)
+    obtain ⟨j, rfl⟩ : ∃ j : Nat, i = (j : Int) := ⟨i.toNat, by omega⟩
+    have ih := gatherRows_eq hc t (fun x hx => h x (by simp [hx]))
+    simp only [Py.LG.gatherRows] at ih ⊢
+    rw [List.mapM_cons, row_eq hc j (by omega), ih]
+    rfl
+
+theorem subRows_steps (P : Int → List K) (hP : ∀ a b, Py.LG.subArr (P a) (P b) = some (vsub (P a) (P b))) :
+    ∀ l : List Int, Py.LG.subRows ((l.map P).drop 1) ((l.map P).dropLast) = some ((l.tail.zip l).map fun e => vsub (P e.1) (P e.2))
+  | [] => by simp [Py.LG.subRows]
+  | [a] => by simp [Py.LG.subRows]
+  | a :: b :: t => by
+    have ih := subRows_steps P hP (b :: t)
+    simp only [List.map_cons, List.drop_one, List.tail_cons, List.dropLast_cons_cons] at ih ⊢
+    simp [Py.LG.subRows, hP, ih]
+
+/-- **`Path.length` as translated** = the sum, in order, of `norm (pos later − pos earlier)` over the consecutive nodes of the path -/
+theorem pathLength_refines (norm : List K → K) {n : Nat} {xs ys zs : List K} (hc : Cols n xs ys zs) (br : List Int) (hb : ValidBranch n br) :
+    path_length norm xs ys zs br = some (branchLength norm xs ys zs br) := by
+  simp only [path_length, path_length.body, Py.seq, Py.bind, gatherRows_eq hc br hb,
+    subRows_steps (pos xs ys zs) (fun a b => subArr_pos xs ys zs a b) br, Py.finish, Option.map, branchLength, Py.LG.sumK, sumFrom,
+    List.map_map]
+  rfl
+
+/-- **`LMeasure.branch_pathlength` as translated = Branch_pathlength** -/
+theorem branchPathlength_refines (norm : List K → K) {n : Nat} {xs ys zs : List K} (hc : Cols n xs ys zs) (br : List Int)
+    (hb : ValidBranch n br) :
+    lm_branch_pathlength norm xs ys zs br = some (branchLength norm xs ys zs br) := by
+  simp only [lm_branch_pathlength, lm_branch_pathlength.body, Py.bind, pathLength_refines norm hc br hb, Py.finish, Option.map]
+
+/-- **`LMeasure.contraction` as translated = Contraction**: distance(first node, last node) / path length of the branch; `none` (the source
+raises) for an empty branch and when the path length is 0 -/
+theorem contraction_refines (F : Py.Fld K) (norm : List K → K) {n : Nat} {xs ys zs : List K} (hc : Cols n xs ys zs) (br : List Int)
+    (hb : ValidBranch n br) :
+    lm_contraction F norm xs ys zs br = contraction F norm xs ys zs br := by
+  cases br with
+  | nil => simp [lm_contraction, lm_contraction.body, Py.seq, Py.bind, idx_head, Py.finish, contraction]
+  | cons a t =>
+    have ha := hb a (by simp)
+    obtain ⟨b, hbl⟩ : ∃ b, (a :: t).getLast? = some b := ⟨(a :: t).getLast (by simp), List.getLast?_eq_some_getLast (by simp)⟩
+    have hbm : b ∈ a :: t := List.mem_of_getLast? hbl
+    have hbv := hb b hbm
+    obtain ⟨ja, rfl⟩ : ∃ j : Nat, a = (j : Int) := ⟨a.toNat, by omega⟩
+    obtain ⟨jb, rfl⟩ : ∃ j : Nat, b = (j : Int) := ⟨b.toNat, by omega⟩
+    simp only [lm_contraction, lm_contraction.body, Py.seq, Py.bind, idx_head, idx_last, hbl, List.head?_cons,
+      node_distance_eq norm hc ja jb (by omega) (by omega), pathLength_refines norm hc _ hb, contraction]
+    cases h : Py.fdiv (dist norm xs ys zs (ja : Int) (jb : Int)) (branchLength norm xs ys zs ((ja : Int) :: t)) <;> simp [h, Py.finish]
+
+/-- **`LMeasure.taper_1` as translated**: (2·r[first] − 2·r[last]) / path length of the branch -/
+theorem taper1_refines (F : Py.Fld K) (norm : List K → K) {n : Nat} {xs ys zs rs : List K} (hc : Cols n xs ys zs) (hr : rs.length = n)
+    (br : List Int) (hb : ValidBranch n br) :
+    lm_taper_1 F norm xs ys zs rs br = taper1 F norm xs ys zs rs br := by
+  cases br with
+  | nil => simp [lm_taper_1, lm_taper_1.body, Py.seq, Py.bind, idx_head, Py.finish, taper1]
+  | cons a t =>
+    have ha := hb a (by simp)
+    obtain ⟨b, hbl⟩ : ∃ b, (a :: t).getLast? = some b := ⟨(a :: t).getLast (by simp), List.getLast?_eq_some_getLast (by simp)⟩
+    have hbm : b ∈ a :: t := List.mem_of_getLast? hbl
+    have hbv := hb b hbm
+    obtain ⟨ja, rfl⟩ : ∃ j : Nat, a = (j : Int) := ⟨a.toNat, by omega⟩
+    obtain ⟨jb, rfl⟩ : ∃ j : Nat, b = (j : Int) := ⟨b.toNat, by omega⟩
+    simp only [lm_taper_1, lm_taper_1.body, Py.seq, Py.bind, idx_head, idx_last, hbl, List.head?_cons,
+      idx_col rs ja (by omega), idx_col rs jb (by omega), pathLength_refines norm hc _ hb, taper1, diameter, Int.toNat_natCast]
+    cases h : Py.fdiv ((Py.Fld.ofInt 2 : K) * rs.getD ja default - (Py.Fld.ofInt 2 : K) * rs.getD jb default)
+      (branchLength norm xs ys zs ((ja : Int) :: t)) <;> simp [h, Py.finish]
+
+/-- **`LMeasure.taper_2` as translated**: (2·r[first] − 2·r[last]) / (2·r[first]) -/
+theorem taper2_refines (F : Py.Fld K) {n : Nat} {rs : List K} (hr : rs.length = n) (br : List Int) (hb : ValidBranch n br) :
+    lm_taper_2 F rs br = taper2 F rs br := by
+  cases br with
+  | nil => simp [lm_taper_2, lm_taper_2.body, Py.seq, Py.bind, idx_head, Py.finish, taper2]
+  | cons a t =>
+    have ha := hb a (by simp)
+    obtain ⟨b, hbl⟩ : ∃ b, (a :: t).getLast? = some b := ⟨(a :: t).getLast (by simp), List.getLast?_eq_some_getLast (by simp)⟩
+    have hbm : b ∈ a :: t := List.mem_of_getLast? hbl
+    have hbv := hb b hbm
+    obtain ⟨ja, rfl⟩ : ∃ j : Nat, a = (j : Int) := ⟨a.toNat, by omega⟩
+    obtain ⟨jb, rfl⟩ : ∃ j : Nat, b = (j : Int) := ⟨b.toNat, by omega⟩
+    simp only [lm_taper_2, lm_taper_2.body, Py.seq, Py.bind, idx_head, idx_last, hbl, List.head?_cons,
+      idx_col rs ja (by omega), idx_col rs jb (by omega), taper2, diameter, Int.toNat_natCast]
+    cases h : Py.fdiv ((Py.Fld.ofInt 2 : K) * rs.getD ja default - (Py.Fld.ofInt 2 : K) * rs.getD jb default)
+      ((Py.Fld.ofInt 2 : K) * rs.getD ja default) <;> simp [h, Py.finish]
+
 end RefineLmGeo
